@@ -42,14 +42,20 @@ Theorem C14_genB_model :
       Gen_bits2.cmp_greater_i16_i32_g t u = Some (cmp_greater_m i16 i32 t u)
       /\ Gen_bits2.cmp_less_equal_i16_i32_g t u = Some (cmp_less_equal_m i16 i32 t u)
       /\ Gen_bits2.cmp_greater_equal_i16_i32_g t u = Some (cmp_greater_equal_m i16 i32 t u)
-      /\ Gen_bits2.cmp_not_equal_i16_i32_g t u = Some (cmp_not_equal_m i16 i32 t u)))
+      /\ Gen_bits2.cmp_not_equal_i16_i32_g t u = Some (cmp_not_equal_m i16 i32 t u))
+    /\ (in_ty u32 t = true -> in_ty i32 u = true ->
+      Gen_bits2.cmp_greater_u32_i32_g t u = Some (cmp_greater_m u32 i32 t u)
+      /\ Gen_bits2.cmp_less_equal_u32_i32_g t u = Some (cmp_less_equal_m u32 i32 t u)
+      /\ Gen_bits2.cmp_greater_equal_u32_i32_g t u = Some (cmp_greater_equal_m u32 i32 t u)
+      /\ Gen_bits2.cmp_not_equal_u32_i32_g t u = Some (cmp_not_equal_m u32 i32 t u)))
   /\ (forall t,
     (in_ty i32 t = true -> Gen_bits2.in_range_u32_of_i32_g t = Some (in_range_m u32 i32 t))
     /\ (in_ty i8 t = true -> Gen_bits2.in_range_u64_of_i8_g t = Some (in_range_m u64 i8 t))
     /\ (in_ty u32 t = true -> Gen_bits2.in_range_i64_of_u32_g t = Some (in_range_m i64 u32 t))
     /\ (in_ty i64 t = true -> Gen_bits2.in_range_u64_of_i64_g t = Some (in_range_m u64 i64 t))
     /\ (in_ty u8 t = true -> Gen_bits2.in_range_i8_of_u8_g t = Some (in_range_m i8 u8 t))
-    /\ (in_ty i16 t = true -> Gen_bits2.in_range_i32_of_i16_g t = Some (in_range_m i32 i16 t)))
+    /\ (in_ty i16 t = true -> Gen_bits2.in_range_i32_of_i16_g t = Some (in_range_m i32 i16 t))
+    /\ (in_ty u32 t = true -> Gen_bits2.in_range_i32_of_u32_g t = Some (in_range_m i32 u32 t)))
   /\ (forall x,
     (in_ty i32 x = true -> Gen_bits2.saturate_cast_u8_of_i32_g x = ok_of (saturate_cast_m u8 i32 x))
     /\ (in_ty i32 x = true -> Gen_bits2.saturate_cast_i8_of_i32_g x = ok_of (saturate_cast_m i8 i32 x))
@@ -120,14 +126,20 @@ Theorem C14_genB_spec :
       Gen_bits2.cmp_greater_i16_i32_g t u = Some (cmp_greater_spec t u)
       /\ Gen_bits2.cmp_less_equal_i16_i32_g t u = Some (cmp_less_equal_spec t u)
       /\ Gen_bits2.cmp_greater_equal_i16_i32_g t u = Some (cmp_greater_equal_spec t u)
-      /\ Gen_bits2.cmp_not_equal_i16_i32_g t u = Some (cmp_not_equal_spec t u)))
+      /\ Gen_bits2.cmp_not_equal_i16_i32_g t u = Some (cmp_not_equal_spec t u))
+    /\ (in_ty u32 t = true -> in_ty i32 u = true ->
+      Gen_bits2.cmp_greater_u32_i32_g t u = Some (cmp_greater_spec t u)
+      /\ Gen_bits2.cmp_less_equal_u32_i32_g t u = Some (cmp_less_equal_spec t u)
+      /\ Gen_bits2.cmp_greater_equal_u32_i32_g t u = Some (cmp_greater_equal_spec t u)
+      /\ Gen_bits2.cmp_not_equal_u32_i32_g t u = Some (cmp_not_equal_spec t u)))
   /\ (forall t,
     (in_ty i32 t = true -> Gen_bits2.in_range_u32_of_i32_g t = Some (in_range_spec u32 t))
     /\ (in_ty i8 t = true -> Gen_bits2.in_range_u64_of_i8_g t = Some (in_range_spec u64 t))
     /\ (in_ty u32 t = true -> Gen_bits2.in_range_i64_of_u32_g t = Some (in_range_spec i64 t))
     /\ (in_ty i64 t = true -> Gen_bits2.in_range_u64_of_i64_g t = Some (in_range_spec u64 t))
     /\ (in_ty u8 t = true -> Gen_bits2.in_range_i8_of_u8_g t = Some (in_range_spec i8 t))
-    /\ (in_ty i16 t = true -> Gen_bits2.in_range_i32_of_i16_g t = Some (in_range_spec i32 t)))
+    /\ (in_ty i16 t = true -> Gen_bits2.in_range_i32_of_i16_g t = Some (in_range_spec i32 t))
+    /\ (in_ty u32 t = true -> Gen_bits2.in_range_i32_of_u32_g t = Some (in_range_spec i32 t)))
   /\ (forall x,
     (in_ty i32 x = true -> Gen_bits2.saturate_cast_u8_of_i32_g x = Some (saturate_cast_spec u8 x))
     /\ (in_ty i32 x = true -> Gen_bits2.saturate_cast_i8_of_i32_g x = Some (saturate_cast_spec i8 x))
@@ -151,20 +163,7 @@ Theorem C14_genB_spec :
     /\ (in_ty i32 x = true -> in_ty i32 (Z.abs x) = true -> Gen_bits2.abs_i32_g x = Some (abs_spec x))
     /\ (in_ty i64 x = true -> in_ty i64 (Z.abs x) = true -> Gen_bits2.abs_i64_g x = Some (abs_spec x))
     /\ Gen_bits2.abs_i32_g (imin i32) = None
-    /\ Gen_bits2.abs_i64_g (imin i64) = None)
-  /\ (forall word v,
-    (0 <= word < 2 ^ 8 ->
-      Gen_bits2.set_bit_tpl7_u8_g word = Some (set_bit_spec word 7)
-      /\ Gen_bits2.reset_bit_tpl7_u8_g word = Some (reset_bit_spec word 7)
-      /\ Gen_bits2.flip_bit_tpl7_u8_g word = Some (flip_bit_spec word 7)
-      /\ Gen_bits2.test_bit_tpl7_u8_g word = Some (test_bit_spec word 7)
-      /\ Gen_bits2.set_bit_val_tpl7_u8_g word v = Some (assign_bit_spec word 7 v))
-    /\ (0 <= word < 2 ^ 32 ->
-      Gen_bits2.set_bit_tpl31_u32_g word = Some (set_bit_spec word 31)
-      /\ Gen_bits2.reset_bit_tpl31_u32_g word = Some (reset_bit_spec word 31)
-      /\ Gen_bits2.flip_bit_tpl31_u32_g word = Some (flip_bit_spec word 31)
-      /\ Gen_bits2.test_bit_tpl31_u32_g word = Some (test_bit_spec word 31)
-      /\ Gen_bits2.set_bit_val_tpl31_u32_g word v = Some (assign_bit_spec word 31 v))).
+    /\ Gen_bits2.abs_i64_g (imin i64) = None).
 Proof. exact genB_spec. Qed.
 
 Definition C14_genB_theorems := (C14_genB_model, C14_genB_spec).
